@@ -3,6 +3,7 @@
 pub mod consts;
 pub mod crc;
 pub mod de;
+pub mod ocf;
 pub mod ser;
 
 pub use consts::dump_constants;
@@ -12,6 +13,8 @@ pub fn generate(stream: &str, seed: u64, n: usize, emit: &mut dyn FnMut(String))
 		"ser" | "ser-valid" | "ser-mut" | "ser-sink" => ser::generate(stream, seed, n, emit),
 		"crc" => crc::generate(seed, n, emit),
 		"c11" => de::generate_c11(seed, n, emit),
+		"ocfw" | "ocfw-sink" => ocf::generate_w(stream, seed, n, emit),
+		"ocfr" | "ocfr-null" | "ocfr-damage" | "ocfd" => ocf::generate_r(stream, seed, n, emit),
 		s if s.starts_with("de") => de::generate(stream, seed, n, emit),
 		_ => panic!("unknown stream {stream}"),
 	}
@@ -25,6 +28,8 @@ pub fn run_line(line: &str) -> String {
 		"crc" => crc::run(line),
 		"de" => de::run(line),
 		"c11" => de::run_c11(line),
+		"ocfw" => ocf::run_w(line),
+		"ocfr" | "ocfd" => ocf::run_r(line),
 		_ => Err(format!("unknown stream {cmd}")),
 	});
 	match r {
